@@ -805,9 +805,9 @@ def classify_cost_mismatch(mode, par, shapes, pins, conns, j, ra, rb, ca, cb, ax
                     vertical = x0 == x1 and y0 != y1
                     if (horizontal and not d & 12) or (vertical and not d & 3):
                         return 'route_through_restricted_connection_point'
-    if axis_swap and any(e[0] == 'P' and e[3] != 15 for cn in conns for e in cn):
-        # coarse: a free end with restricted ConnDirFlags in the scene, the three mirror frames agree with the identity, an axis-swapping frame does not
-        return 'orthogonal_direction_flags_axis_asymmetry'
+    if any(e[0] == 'P' and e[3] != 15 for cn in conns for e in cn):
+        # coarse: orthogonal routing, a free end with restricted ConnDirFlags somewhere in the scene, none of the specific predicates applies
+        return 'orthogonal_direction_flags_frame_asymmetry'
     return None
 
 
@@ -912,7 +912,17 @@ def part_c2(res, rng, exe, n_inst, stats, hist):
             # distances: overlapping segments were nudged apart in the other order
             fp = 'nudging_order_not_translation_invariant'
             stats['c2_known_' + fp] += 1
-        if not raw_exact or not disp_ok:
+        if not raw_exact and (par[2] > 0 or par[4] > 0) and len(conns) >= 2:
+            # candidate for the crossing-stage finding (ties of the re-routing stage decided by rounding): re-run both frames with the two penalties at 0
+            p0 = list(par)
+            p0[2] = p0[4] = 0
+            deferred.append(({'what': 'libavoid (configured): translating the scene by an exactly representable offset does not translate route() exactly',
+                              'input': inp, 'offset': [str(tx), str(ty)], 'routes_raw_display': [[[[float(x), float(y)] for x, y in rt] for rt in r] for r in base],
+                              'translated_minus_offset': tr[1] if tr[0] == 'X' else [[[[float(x), float(y)] for x, y in rt] for rt in r] for r in back],
+                              'replay': 'printf "%s\\n%s\\n" | %s' % (c[0], c[5], rp)},
+                             mode, p0, opt, shapes, pins, conns, ('T', tx, ty), SYMS[0],
+                             cmd_C(mode, p0, opt, shapes, pins, conns), cmd_C(mode, p0, opt, shapes, pins, conns, tx=tx, ty=ty)))
+        elif not raw_exact or not disp_ok:
             res.violation({'what': 'libavoid (configured): translating the scene by an exactly representable offset does not translate '
                                    + ('route() exactly' if not raw_exact else 'displayRoute() (1e-9)'),
                            'input': inp, 'offset': [str(tx), str(ty)], 'routes_raw_display': [[[[float(x), float(y)] for x, y in rt] for rt in r] for r in base],
@@ -924,8 +934,12 @@ def part_c2(res, rng, exe, n_inst, stats, hist):
         for idx, name in [(6, 'shapes (and pins) inserted in permuted order %s' % sperm)] + [(6 + s, FRAME_NAMES[s]) for s in range(1, 8)]:
             other = parse_C(o[idx])
             if other[0] == 'X':
+                # an assertion site (file:line:expression) -> fingerprint without the line number, as C15 does
+                t = other[1].split(':', 3)
+                fp = 'assert:%s:%s' % (t[1], t[3]) if len(t) == 4 and t[0] == 'assert' else None
+                stats['c2_throws_in_one_frame_only'] += 1
                 res.violation({'what': 'libavoid (configured): the scene routes in the identity frame but the library throws in frame: ' + name,
-                               'input': inp, 'thrown': other[1], 'replay': 'printf "%s\\n%s\\n" | %s' % (c[0], c[idx], rp)})
+                               'input': inp, 'thrown': other[1], 'replay': 'printf "%s\\n%s\\n" | %s' % (c[0], c[idx], rp)}, fingerprint=fp)
                 break
             fsh = shapes
             if idx > 6:
@@ -972,14 +986,26 @@ def part_c2(res, rng, exe, n_inst, stats, hist):
             fp = None
             if len(out2) == 2 * len(deferred):
                 ra, rb_ = parse_C(out2[2 * k]), parse_C(out2[2 * k + 1])
-                if ra[0] != 'X' and rb_[0] != 'X':
+                if ra[0] != 'X' and rb_[0] != 'X' and isinstance(idx, tuple):
+                    obj['replay_zeroed'] = 'printf "%s\\n%s\\n" | %s' % (ca, cb, rp)
+                    if [[(x - idx[1], y - idx[2]) for x, y in r[0]] for r in rb_] == [list(r[0]) for r in ra]:
+                        fp = 'crossing_stage_frame_dependent'
+                elif ra[0] != 'X' and rb_[0] != 'X':
                     fsh = [g(F(q[0]), F(q[1])) + g(F(q[2]), F(q[3])) for q in shapes]
                     ka = [full_cost(r[0], mode, p0, cn, shapes) for r, cn in zip(ra, conns)]
                     kb = [full_cost(r[0], mode, p0, cn, fsh) for r, cn in zip(rb_, conns)]
                     obj['costs_with_crossingPenalty_and_fixedSharedPathPenalty_zeroed'] = [ka, kb]
                     obj['replay_zeroed'] = 'printf "%s\\n%s\\n" | %s' % (ca, cb, rp)
-                    if all(abs(x[0] - y[0]) <= 1e-9 * max(1.0, x[0]) for x, y in zip(ka, kb)):
+                    bad0 = [q for q, (x, y) in enumerate(zip(ka, kb)) if abs(x[0] - y[0]) > 1e-9 * max(1.0, x[0])]
+                    if not bad0:
                         fp = 'crossing_stage_frame_dependent'
+                    else:
+                        # the frames still disagree without the crossing stage: classify THAT mismatch (e.g. another connector runs through a
+                        # restricted connection point and the crossing stage only propagated it)
+                        q = bad0[0]
+                        gi = SYMS[SYM_INV[idx - 6]] if idx > 6 else SYMS[0]
+                        fp = classify_cost_mismatch(mode, p0, shapes, pins, conns, q, list(ra[q][0]), [gi(x, y) for x, y in rb_[q][0]], ka[q], kb[q], idx >= 10)
+                        obj['mismatch_without_crossing_stage'] = {'connector': q, 'classified_as': fp}
             stats['c2_known_' + fp if fp else 'c2_cost_violations'] += 1
             res.violation(obj, fingerprint=fp)
     return dt
